@@ -19,6 +19,7 @@ class Engine:
         self.stats = {"functions_walked": 0, "paths": 0, "calls_resolved": 0}
         self._imports = None
         self.callee_index = {}
+        self.unknown_calls = {}
 
     @property
     def imports(self):
